@@ -30,7 +30,7 @@ Proof. vm_compute. reflexivity. Qed.
     mutex, speak about all locks a forked child can inherit in the locked state. *)
 Lemma all_locks_covered_ok : all_locks_covered tsrm_fns globals = true.
 Proof. vm_compute. reflexivity. Qed.
-Lemma locking_confined_ok : locking_confined tsrm_fns constructors fn_refs = true.
+Lemma locking_confined_ok : locking_confined tsrm_fns constructors inlined_helpers fn_refs = true.
 Proof. vm_compute. reflexivity. Qed.
 Theorem C10_all_locks_covered : forall g, In g globals -> is_lock_object g = true ->
   g_name g = "snoopy_tsrm_threadRepo_mutex"%string /\ covered_locks tsrm_fns = ["snoopy_tsrm_threadRepo_mutex"%string].
